@@ -55,6 +55,26 @@ func VP_DM_text() {
 		}
 	}
 	vpAssert(len(cw) <= 2*n, "at most two codewords per byte")
+	// C13: the size choice rests on the encodation being as short as ASCII encodation allows: every
+	// run of digits is packed into floor(length/2) pair codewords, bytes >= 128 take two codewords
+	pairs, high, open := 0, 0, false
+	for i := 0; i < n; i++ {
+		c := content[i]
+		if c >= '0' && c <= '9' {
+			if open {
+				pairs++
+				open = false
+			} else {
+				open = true
+			}
+		} else {
+			open = false
+		}
+		if c >= 128 {
+			high++
+		}
+	}
+	vpAssert(len(cw) == n+high-pairs, "the ASCII encodation has the minimal length (all digit pairs packed)")
 	if n >= 2 {
 		vpCover("digit-pair", len(cw) < n)
 	}
@@ -96,6 +116,15 @@ func VP_DM_ecc() {
 	_, ok := vpSizeOf(s)
 	vpAssert(ok, "size row equals the ISO table")
 	data := vpBytes("d", e[2])
+	// big symbols: only every stride-th data codeword stays symbolic, the others are fixed non-zero
+	// values (the block structure, buffer handling and interleave are what is under test there)
+	if stride := vpConfig("stride"); stride > 1 {
+		for i := range data {
+			if i%stride != 0 {
+				data[i] = byte(37*i + 11)
+			}
+		}
+	}
 	given := make([]int, e[2])
 	for i, b := range data {
 		given[i] = int(b)
